@@ -184,6 +184,26 @@ pub fn run(ctx: &mut Ctx) {
         ctx.run_prop(&SUB_ORB, move || (pooled_symbol(pool.clone()), sw(), 0usize..=3, any::<u32>()).prop_map(|(ds, swaps, k, pick)| OrbCase { sheets: if ds.size <= 5 && k >= 2 { k } else { 0 }, ds, swaps, pick }), n);
     }
     ctx.run_prop(&SUB_ORB, || (random_symbol(2, 8..=60), sw()).prop_map(|(ds, swaps)| OrbCase { ds, swaps, sheets: 0, pick: 0 }), n / 4);
+    // large branching numbers: values around 2^8, 2^10, 2^12, 2^16, around 420 and 840 (the generator's
+    // curvature scale) and up to 10^5; at most two different values above 100 per symbol, so that the
+    // exact i64 rationals of both the crate and the oracle cannot overflow
+    {
+        const BIG: [usize; 30] = [101, 127, 128, 129, 255, 256, 257, 419, 420, 421, 422, 511, 512, 839, 840, 841, 1000, 1023, 1024, 1025, 2520, 4095, 4096, 4097, 9973, 65535, 65536, 65537, 99991, 100003];
+        let pool = std::sync::Arc::new(dsets_up_to(2, 6));
+        ctx.run_prop(
+            &SUB_ORB,
+            move || {
+                (pooled_symbol(pool.clone()), prop::collection::vec(0u8..8, 12), any::<u32>(), any::<u32>(), sw(), 0usize..=2).prop_map(|(x, which, a, b, swaps, k)| {
+                    let big = [BIG[pick_index(a, BIG.len())], BIG[pick_index(b, BIG.len())]];
+                    let reps = crate::gen::dsyms::orbit_reps(&x);
+                    let vs: Vec<usize> = reps.iter().enumerate().map(|(j, &(i, d))| match which[j % which.len()] { 0 | 1 => big[0], 2 => big[1], 3 => 1, 4 => 2, _ => x.v[i][d] }).collect();
+                    let ds = crate::gen::dsyms::assign(&x.dset(), &reps, &vs);
+                    OrbCase { sheets: if ds.size <= 3 && k == 2 { 2 } else { 0 }, ds, swaps, pick: a ^ b }
+                })
+            },
+            n / 2,
+        );
+    }
 }
 
 pub fn replay(ctx: &mut Ctx, sub: &str, case: &Value) -> Option<Result<(), String>> {
